@@ -78,6 +78,12 @@ CLAIMED['C01'] = dict(tech='lane-dependence abstract interpretation of the SIMD 
          'the L+1-M bookkeeping of the 5 wrappers, the 6 index<->(row,col) sites, the 18 dispatcher arms and the K<=8 guard are matched. Floating-point rounding and the cfg-excluded NEON arm are not decided.',
     ref='DESIGN.md §4 C01')
 
+CLAIMED['C07'] = dict(tech='lane-dependence abstract interpretation of the max/argmax kernels (reduction identity in the element domain, value/index mask pairing, lane->column map of the spilled indices), guard dominance, relational matching of threshold',
+    text='Static (part): every SIMD max/argmax accumulator starts at a lower bound of its element domain; value and index accumulators are blended under one mask comparing the cell of their own column; '
+         'element t of the spilled index array is shown to hold the candidate of column t, the column the scalar epilogue attributes to it; all 32 (or C) columns participate; is_empty guards dominate row 0; '
+         'the default threshold is inclusive and visits each cell once with no overriding backend; dispatcher arms. NaN / rounding not decided.',
+    ref='DESIGN.md §4 C07')
+
 NA = {
     'C11': 'numeric agreement of a tabulated distribution with the exact tail probability: quantifies over run-time floating-point values; no sound static argument in reach (DESIGN.md §6)',
     'C12': 'bounds computed probability ranges by exact tail probabilities at a granularity: run-time numerics, no structural necessary condition (DESIGN.md §6)',
